@@ -634,6 +634,84 @@ def steer_case(seed: int, tier: str) -> Dict[str, Any]:
 
 
 # ---------------------------------------------------------------------------
+# overlapping evaluations: results obtained lazily, several at a time
+# ---------------------------------------------------------------------------
+def run_overlap(text: str, docs: List[Any], schedule: List[int], sseed: int, profile: Dict[str, Any], feed: Optional[list] = None):
+    """One compiled query on a nondeterministic environment, one lazy iterator per document, the
+    iterators advanced in the order ``schedule`` says (then drained in turn), all under one
+    choice stream.  Returns ([locs | None per document], exc | None, trace)."""
+    sim = simrandom.SimRandom(sseed, profile, feed)
+    sim.cap = sum(_decision_cap(d) for d in docs)
+    simrandom.install(sim)
+    got: List[List[Tuple]] = [[] for _ in docs]
+    try:
+        try:
+            compiled = _nenv(text).compile(text)
+            its = [iter(compiled.finditer(d)) for d in docs]
+            done = [False] * len(docs)
+            for who in list(schedule) + [i for i in range(len(docs)) for _ in range(100_000)]:
+                if all(done):
+                    break
+                if done[who]:
+                    continue
+                try:
+                    got[who].append(tuple(next(its[who]).location))
+                except StopIteration:
+                    done[who] = True
+        except simrandom.ChoiceBudgetExceeded:
+            return None, f"no-termination: more than {sim.cap} random decisions consumed", sim.log[:200]
+        except Exception as exc:  # noqa: BLE001
+            return None, type(exc).__name__, sim.log
+    finally:
+        simrandom.uninstall()
+    return got, None, sim.log
+
+
+def overlap_case(qast: Dict[str, Any], docs: List[Any], schedule: List[int], streams: List[Tuple[int, Dict[str, Any], Optional[list]]]) -> Dict[str, Any]:
+    """Every result of every one of the overlapping evaluations must be a permitted one for ITS
+    document (multiset always; ordering where the permitted set can be enumerated)."""
+    text = Q.render(qast)
+    out: Dict[str, Any] = {"violations": [], "stats": Counter(), "events": [], "sigs": set(), "steps": 0}
+    st = out["stats"]
+    dets = []
+    for d in docs:
+        try:
+            dets.append(_locs_det(text, d))
+        except Exception as exc:  # noqa: BLE001
+            st["case_det_raises"] += 1
+            out["events"].append(["det-raises", text, type(exc).__name__])
+            return out
+    permitted: List[Any] = []
+    for d in docs:
+        try:
+            permitted.append(Permitted(qast, d, lambda t, d=d: _locs_det(t, d)).all())
+        except TooBig:
+            permitted.append(None)
+    st["overlap_cases"] += 1
+    for sseed, profile, feed in streams:
+        got, exc, trace = run_overlap(text, docs, schedule, sseed, profile, feed)
+        st["overlap_streams"] += 1
+        out["steps"] += len(trace)
+        payload = {"kind": "overlap", "query": qast, "docs": docs, "schedule": schedule, "stream": {"seed": sseed, "profile": profile, "trace": trace}}
+        if exc is not None:
+            out["violations"].append(_viol("invalid:exception", f"{text}: overlapping nondeterministic evaluations raised {exc}, deterministic mode does not", payload, ":overlap"))
+            out["events"].append(["exc", exc])
+            break
+        for i, (seq, det) in enumerate(zip(got, dets)):
+            out["events"].append(_jsonable_seq(seq))
+            if Counter(seq) != Counter(det):
+                out["violations"].append(_viol("invalid:multiset", f"{text}: of {len(docs)} overlapping evaluations of one compiled query, the one over {_short(docs[i])} gave {_jsonable_seq(seq)}, not the deterministic multiset {_jsonable_seq(det)}", payload, ":overlap"))
+                break
+            if permitted[i] is not None and tuple(seq) not in permitted[i]:
+                out["violations"].append(_viol("invalid:ordering", f"{text}: of {len(docs)} overlapping evaluations, the one over {_short(docs[i])} gave the ordering {_jsonable_seq(seq)}, which RFC 9535 does not permit", payload, ":overlap"))
+                break
+        if out["violations"]:
+            break
+        out["sigs"].add(seeds.digest([text, docs, schedule[:20], [_jsonable_seq(g) for g in got]]))
+    return out
+
+
+# ---------------------------------------------------------------------------
 # run generation
 # ---------------------------------------------------------------------------
 def _gen_random_case(rng) -> Tuple[Dict[str, Any], Any]:
@@ -698,7 +776,19 @@ def run_one(seed: int, tier: str, index: int) -> Dict[str, Any]:
         rng = seeds.stream(seed, "choices")
         k = wl.choice((4, 8, 8, 16, 32))
         streams = [(rng.getrandbits(48), simrandom.draw_profile(rng), None) for _ in range(k)]
-        if wl.random() < 0.02:
+        if index % 9 == 4:
+            # the same compiled query evaluated over two or three values at once
+            small = D.random_tree(wl, max_nodes=wl.choice((4, 6, 8)), max_depth=3, p_dict=wl.choice((0.5, 0.8)), max_width=3)
+            if not isinstance(doc, (list, dict)) or D.count_nodes(doc) > 40:
+                doc = small
+            docs = [doc]
+            for _ in range(wl.choice((1, 1, 2))):
+                r2 = wl.random()
+                docs.append(doc if r2 < 0.3 else D.random_tree(wl, max_nodes=wl.choice((4, 8, 12)), max_depth=3, p_dict=wl.choice((0.5, 0.8)), max_width=3) if r2 < 0.7 else {"a": 1, "b": [2, {"a": 3, "c": 4}], "c": {"a": 5, "b": 6}})
+            schedule = [wl.randrange(len(docs)) for _ in range(wl.choice((4, 10, 30)))] if wl.random() < 0.6 else [i % len(docs) for i in range(40)]
+            res = overlap_case(q, docs, schedule, streams[:6])
+            res["stats"]["runs_overlap"] += 1
+        elif wl.random() < 0.02:
             # exhaustiveness beyond the fixed corpus: a random small case, searched like a corpus case
             res = check_case(q, doc, streams, exhaust_budget=20_000, exhaust_seed=seed, exhaust_cap=32)
             res["stats"]["runs_random_exhaust"] += 1
@@ -733,6 +823,9 @@ def replay(payload: Dict[str, Any]) -> List[Dict[str, Any]]:
         if out["status"] == "error":
             return [_viol("invalid:exception", f"replayed: steering raised {out['exc']}", payload)]
         return []
+    if payload.get("kind") == "overlap":
+        s = payload["stream"]
+        return overlap_case(payload["query"], payload["docs"], payload["schedule"], [(s["seed"], s["profile"], s.get("trace"))])["violations"]
     q, doc = payload["query"], payload["doc"]
     if payload["kind"] == "validity":
         s = payload["stream"]
@@ -743,6 +836,22 @@ def replay(payload: Dict[str, Any]) -> List[Dict[str, Any]]:
 
 
 def shrink_candidates(payload: Dict[str, Any]):
+    if payload.get("kind") == "overlap":
+        docs, sch, s = payload["docs"], payload["schedule"], payload["stream"]
+        fresh = {**s, "trace": None}
+        if len(docs) > 2:
+            for i in range(len(docs)):
+                yield {**payload, "docs": docs[:i] + docs[i + 1 :], "schedule": [x for x in (y if y < i else y - 1 for y in sch if y != i)], "stream": fresh}
+        for cut in (len(sch) // 2, len(sch) - 1):
+            if 0 < cut < len(sch):
+                yield {**payload, "schedule": sch[:cut], "stream": fresh}
+        for i, d in enumerate(docs):
+            for d2 in D.shrink_json(d):
+                if isinstance(d2, (list, dict)):
+                    yield {**payload, "docs": docs[:i] + [d2] + docs[i + 1 :], "stream": fresh}
+        for q2 in Q.shrink_query(payload["query"]):
+            yield {**payload, "query": q2, "stream": fresh}
+        return
     if payload.get("kind") != "validity":
         return
     q, doc, s = payload["query"], payload["doc"], payload["stream"]
